@@ -194,7 +194,7 @@ func genSearch(r *rt.Rand, o Opts) *Program {
 			return rt.Pick(r, []string{"len(a)>1", "len(this)==2", "len(s)>3"})
 		case 21:
 			g.used("nameof")
-			return rt.Pick(r, []string{fmt.Sprintf("nameof(this)==%s", q("top_"+ident(tok))), `nameof(ns)=="nstr"`, `typename("nstr")==typeof(ns)`})
+			return rt.Pick(r, []string{fmt.Sprintf("nameof(this)==%s", q("top_"+ident(tok))), `nameof(ns)=="nstr"`, `(has(ns) and typename("nstr")==typeof(ns))`})
 		case 22:
 			g.used("under")
 			return rt.Pick(r, []string{"under(ns)==" + q(tok), "typeunder(ns)==<string>", "under(u)==" + q(tok)})
